@@ -28,7 +28,7 @@
  "defines": ["LP_BS=1024"],
  "sources": ["lib/ext2fs/dir_iterate.c"],
  "unwind": 6,
- "unwindset": {"h_link_proc.0": 257, "strncpy.0": 257, "strncpy.1": 1025},
+ "unwindset": {"h_link_proc.0": 257, "strncpy.0": 257},
  "unwind_reason": "link_proc is loop-free; only harness/stub loops are unwound: over the 255 possible name bytes (name_len is an 8-bit on-disk field) and, in the strncpy stub, over the constant block size; unwinding assertions on",
  "functions": ["lib/ext2fs/link.c:link_proc", "lib/ext2fs/dir_iterate.c:ext2fs_get_rec_len", "lib/ext2fs/dir_iterate.c:ext2fs_set_rec_len"],
  "assumes": ["block size 1024 (unit link_proc_4k: 4096)", "the entry handed to the callback satisfies what ext2fs_process_dir_block checks before calling: 4-aligned offset < blocksize-8, rec_len >= 8, multiple of 4, offset+rec_len <= blocksize, name_len+8 <= rec_len, and it is not the checksum tail (the caller does not pass DIRENT_FLAG_INCLUDE_CSUM)", "ls->namelen == strlen(ls->name) <= 255, ls->err == 0, ls->sb == fs->super, callback blocksize == fs->blocksize (block directories; inline-data directories are not covered)", "libc strncpy is a stub in the unit with ISO C semantics at the ghost name index (other copied bytes arbitrary, nothing outside dst[0..n) written, destination range asserted to be inside the block)", "without the filetype feature the type byte of the new entry is only claimed to be 0 when the reused slot's stale type byte was 0 (always the case on a filesystem that never had the feature)"],
@@ -46,7 +46,7 @@
  "defines": ["LP_BS=4096"],
  "sources": ["lib/ext2fs/dir_iterate.c"],
  "unwind": 6,
- "unwindset": {"h_link_proc.0": 257, "strncpy.0": 257, "strncpy.1": 4097},
+ "unwindset": {"h_link_proc.0": 257, "strncpy.0": 257},
  "unwind_reason": "see link_proc_1k",
  "functions": ["lib/ext2fs/link.c:link_proc"],
  "assumes": ["block size 4096", "as link_proc_1k"],
@@ -60,8 +60,9 @@
 #define LP_BS 1024
 #endif
 
+struct lp_blk { unsigned char b[LP_BS]; };	/* wrapped in a struct so that a whole block is copied / havocked by ONE assignment */
 struct in_link {
-	unsigned char blk[LP_BS];	/* the directory block as read from disk: arbitrary bytes */
+	struct lp_blk blk;		/* the directory block as read from disk: arbitrary bytes */
 	unsigned int offset;		/* where the iterator stands */
 	unsigned char name[256];	/* requested name (NUL-terminated C string) */
 	unsigned int namelen;
@@ -79,12 +80,13 @@ struct in_link IN;
 
 #include "lib/ext2fs/link.c"
 
-static unsigned char BLKB[LP_BS] __attribute__((aligned(8)));	/* the buffer the callback works on */
+static struct lp_blk BLKS __attribute__((aligned(8)));	/* the buffer the callback works on */
+#define BLKB (BLKS.b)
 static struct struct_ext2_filsys FS;
 static struct ext2_super_block SB;
 static struct link_struct LS;
 
-#define OLDB (IN.blk)
+#define OLDB (IN.blk.b)
 #define NEWB (BLKB)
 #define BS ((unsigned)LP_BS)
 #define O (IN.offset)
@@ -244,28 +246,44 @@ static int link_proc(ext2_ino_t dir, int entru, struct ext2_dir_entry *dirent, i
 	ASSIGNS(__CPROVER_object_whole(BLKB), LS.err, LS.done);
 
 /*
- * libc strncpy: CBMC's byte-wise model (255 symbolic-index writes) and a DFCC havoc of a symbolic-length
- * slice both blow up on a block-sized array (probed: > 150 M clauses), so under the verifier strncpy is a
- * stub with ISO C semantics at the ghost index IN.j: dst[j] = src[j] if there is no NUL in src[0..j), else 0;
- * every other byte of dst[0..n) becomes ARBITRARY (worst case), nothing outside dst[0..n) is written, and the
- * destination range must lie inside the block.  The loop runs over the constant block size with constant
- * indices, which the back end handles cheaply.  Native replay uses the real strncpy.
+ * libc strncpy.  CBMC's byte-wise model (255 symbolic-index writes), a DFCC havoc of a symbolic-length slice
+ * and a loop over the whole block all blow up on a block-sized array, so under the verifier strncpy is this
+ * over-approximating stub: the WHOLE destination object (the block) becomes arbitrary (one assignment from a
+ * nondeterministic block T), and T is then tied to ISO C strncpy ONLY at the byte positions the rest of the
+ * program and the specification ever look at (OBS list below):
+ *      q outside dst[0..n)              T[q] == old block[q]          (strncpy writes nothing else)
+ *      q == dst + IN.j, IN.j < n        T[q] == src[j] if src[0..j) has no NUL, else 0   (ISO C 7.24.2.4)
+ *      other q inside dst[0..n)         unconstrained (worst case)
+ * Every real post-state satisfies these constraints, so the stub has at least the real behaviours (sound); a
+ * position missing from OBS would only make the stub weaker (more arbitrary), never unsound.  The destination
+ * range must lie inside the block.  Native replay uses the real strncpy.
  */
 #ifndef VERIF_NATIVE
-unsigned char nondet_uchar(void);
+static struct lp_blk lp_T;
+#define OBS(q) do { unsigned q_ = (q); if (q_ < BS) { \
+		if (!(q_ >= d && q_ - d < n)) __CPROVER_assume(lp_T.b[q_] == BLKB[q_]); \
+		else if (q_ - d == IN.j) __CPROVER_assume(lp_T.b[q_] == exact); } } while (0)
+#define OBS8(q) do { OBS(q); OBS((q) + 1); OBS((q) + 2); OBS((q) + 3); OBS((q) + 4); OBS((q) + 5); OBS((q) + 6); OBS((q) + 7); } while (0)
 char *strncpy(char *dst, const char *src, size_t n)
 {
 	__CPROVER_assert(__CPROVER_same_object(dst, BLKB) && __CPROVER_w_ok(dst, n), "CHECK:strncpy destination inside the block");
 	__CPROVER_assert(src == (const char *)IN.name && n <= 255, "CHECK:strncpy source is the requested name");
-	size_t d = (size_t)((unsigned char *)dst - BLKB);
+	unsigned d = (unsigned)((unsigned char *)dst - BLKB);
 	int seen = 0;
 	for (unsigned i = 0; i < 255; i++)
 		if (i < IN.j && src[i] == 0)
 			seen = 1;
 	unsigned char exact = seen ? 0 : (unsigned char)src[IN.j];
-	for (unsigned i = 0; i < LP_BS; i++)
-		if (i >= d && i - d < n)
-			BLKB[i] = (i - d == IN.j) ? exact : nondet_uchar();
+	unsigned p2 = O + DE_REC(BLKB, O);	/* where the specification will look for the second entry of the region */
+	struct lp_blk nd;			/* uninitialised = nondeterministic */
+	lp_T = nd;
+	OBS8(O);				/* header of E */
+	OBS(O + DE_HDR + IN.j);			/* name byte j of E */
+	OBS8(p2);				/* header of the entry behind E */
+	OBS(p2 + DE_HDR + IN.j);		/* its name byte j */
+	OBS8(BS - DE_TAIL);			/* tail slot header */
+	OBS(IN.k);				/* the frame byte */
+	BLKS = lp_T;
 	return dst;
 }
 #endif
@@ -284,7 +302,7 @@ void h_link_proc(void)
 		SB.s_feature_ro_compat |= EXT4_FEATURE_RO_COMPAT_METADATA_CSUM;
 	if (IN.filetype)
 		SB.s_feature_incompat |= EXT2_FEATURE_INCOMPAT_FILETYPE;
-	memcpy(BLKB, IN.blk, LP_BS);
+	BLKS = IN.blk;
 	LS.fs = &FS;
 	LS.name = (const char *)IN.name;
 	LS.namelen = IN.namelen;
